@@ -291,6 +291,13 @@ func sig(in Input) string {
 	if whr.NotOfAndGroupNoAtom(in.Chain) {
 		return "not-of-and-group-without-structured-member"
 	}
+	byID := map[int]whr.Atom{}
+	for _, a := range in.Atoms {
+		byID[a.ID] = a
+	}
+	if whr.NegatesEmptyIn(in.Chain, byID, false) {
+		return "not-over-empty-in"
+	}
 	return ""
 }
 
@@ -305,6 +312,15 @@ func main() {
 	out.TheoremApplies = true
 
 	add := func(kind string, in Input) {
+		if kind != "corpus" && kind != "replay" && kind != "known-shape" {
+			byID := map[int]whr.Atom{}
+			for _, a := range in.Atoms {
+				byID[a.ID] = a
+			}
+			if whr.NegatesEmptyIn(in.Chain, byID, false) {
+				return // the known shape below; kept out of the other streams
+			}
+		}
 		o := e.run(in)
 		nontriv := len(in.Chain) >= 2 && len(o.Find) > 0 && len(o.Find) < len(in.Rows)
 		out.Add(lib.Case{Term: term(in, o), JSON: map[string]interface{}{"input": in, "observed": o},
@@ -360,6 +376,13 @@ func main() {
 		for _, ch := range g.NegationChains() {
 			add("negation", Input{Rows: genRows(r), Atoms: atoms, Chain: ch})
 		}
+	}
+	// the known shape: Not over a map whose value is an empty slice
+	{
+		atoms := []whr.Atom{{ID: 1, Col: "nick", Op: "inempty", IsStr: true}, {ID: 2, Col: "age", Op: "gt", I: 1}}
+		not := whr.Call{Kind: "not", Unit: whr.Unit{Form: "map", Members: []int{1}}}
+		add("known-shape", Input{Rows: genRows(r), Atoms: atoms, Chain: []whr.Call{not}})
+		add("known-shape", Input{Rows: genRows(r), Atoms: atoms, Chain: []whr.Call{{Kind: "where", Unit: whr.Unit{Form: "expr", CE: &whr.CExpr{Kind: "atom", Atom: 2}}}, not}})
 	}
 	budget := 600
 	if a.Tier == "thorough" {
